@@ -5,6 +5,7 @@ from engine import vtime
 from engine.harness import Harness
 from engine.symx import all_of, any_of, implies, neg
 from engine.vtime import FreeClock, VTimedelta, real_timedelta
+from harness.common import run_async
 
 SEC = 1_000_000
 Y1970, Y2100 = 0, 4_102_444_800 * SEC
@@ -123,7 +124,10 @@ def h19c_overdue(S):
             S.assume(clock.reads[0] == ts)  # Job stamps itself with the clock
         got = obj.is_overdue
         S.cover("overdue-evaluated")
-        if has_ttl:
+        if has_ttl and not clock.reads:
+            # expiry was decided without looking at the clock: it cannot be "now > timestamp + ttl"
+            S.check("overdue-iff-now-after-expiry", False, info=f"is_overdue = {got!r} for ttl = {ttl} µs was computed without reading the clock")
+        elif has_ttl:
             now = clock.reads[-1]
             S.check("overdue-iff-now-after-expiry", got == (now > ts + ttl))
             S.check("not-overdue-exactly-at-expiry", implies(now == ts + ttl, neg(got)))
@@ -164,10 +168,51 @@ ASSUMPTIONS = [
     "datetime/timedelta arithmetic modelled as exact integer microsecond arithmetic (CPython semantics for naive values)",
 ]
 
+def h19_redis_bucket(S):
+    """A bucket stored in Redis disappears when its own timestamp + ttl has passed, whenever it was stored."""
+    import repid.data._buckets as B
+    from engine.vtime import PinnedClock
+    from fakes import redis as fr
+
+    ts = S.int("timestamp", Y1970 + 10**15, Y2100 - 10**15)
+    ttl = S.int("ttl", SEC, 10 * 366 * 86400 * SEC)
+    stored_after = S.int("stored_after", 0, 366 * 86400 * SEC)          # the bucket may be stored later than it was stamped
+    read_after = S.int("read_after", 0, 12 * 366 * 86400 * SEC)
+    S.assume(stored_after < ttl)                                       # it is still alive when stored
+    which = S.pick("bucket_class", 2)
+    clock = PinnedClock(ts + stored_after)
+    out = {}
+
+    async def main(loop):
+        srv = fr.FakeServer(clock=lambda: clock.time())
+        br = fr.mk_bucket_broker(srv, use_result_bucket=bool(which))
+        if which:
+            bucket = B.ResultBucket(data="x", started_when=1, finished_when=2, timestamp=S.datetime_us(ts), ttl=S.timedelta_us(ttl))
+        else:
+            bucket = B.ArgsBucket(data="x", timestamp=S.datetime_us(ts), ttl=S.timedelta_us(ttl))
+        await br.store_bucket("b1", bucket)
+        clock.set(ts + stored_after + read_after)
+        out["got"] = await br.get_bucket("b1")
+
+    run_async(main, clock=clock)
+    now = ts + stored_after + read_after
+    if out["got"] is not None:
+        S.cover("bucket-alive")
+        S.check("bucket-gone-once-timestamp-plus-ttl-passed", now <= ts + ttl + SEC, info="still returned more than a second after timestamp + ttl")
+    else:
+        S.cover("bucket-gone")
+        S.check("bucket-kept-until-timestamp-plus-ttl", now >= ts + ttl - SEC, info="gone more than a second before timestamp + ttl")
+
+
 # the same arithmetic as used by the reschedule path (time base and clock are chosen by _prepare_reschedule)
 from harness.c06 import h06_step  # noqa: E402
 
 HARNESSES += [
+    Harness(name="H19e-redis-bucket-expiry", scenario=h19_redis_bucket, workers=4,
+            bounds={"timestamp": "any µs", "ttl": "[1 s, 10 y]", "stored": "any time while alive (up to a year after the timestamp)", "read": "up to 12 years later",
+                    "tolerance": "one second (Redis expiry is in whole seconds)"},
+            functions=["connections/redis/bucket_broker.py:RedisBucketBroker.store_bucket", "connections/redis/bucket_broker.py:RedisBucketBroker.get_bucket"],
+            covers=["bucket-alive", "bucket-gone"], stubs=["fake Redis server: SET with EXAT / EX, expiry against the virtual clock"]),
     Harness(name="H19d-reschedule-grid", scenario=h06_step, workers=8,
             bounds={"as H06-step": "one completed iteration from an arbitrary valid state: period [1 s, 100 y], any clock, timestamps, previous slot"},
             functions=["data/_parameters.py:Parameters._prepare_reschedule", "data/_parameters.py:Parameters.compute_next_execution_time"],
